@@ -223,7 +223,8 @@ func runProperty(repo string, spec PropSpec, tier string, seed int, dump bool, o
 		seen[k] = true
 		uniq = append(uniq, o)
 	}
-	uniq = classify(spec.ID, uniq, tables)
+	defCtx, _ := getCtx(repo, "default", cache)
+	uniq = classify(spec.ID, uniq, tables, defCtx)
 	sort.SliceStable(uniq, func(i, j int) bool { return uniq[i].Key() < uniq[j].Key() })
 
 	counts := map[string]int{}
@@ -347,7 +348,7 @@ func doReplay(repo, path string) int {
 		return 1
 	}
 	tables, _ := loadTables()
-	obs := classify(rec.Property, safeRun(r, c), tables)
+	obs := classify(rec.Property, safeRun(r, c), tables, c)
 	found := false
 	for _, o := range obs {
 		if o.Key() == rec.Obligation.Key() {
